@@ -82,6 +82,49 @@ func mkArch(a []string, i int) dependency.Arch {
 
 func init() {
 	ops["dparse"] = func(a []string) string { return showDres(dependency.Parse(arg(a, 0))) }
+	// dalias text: Parse, then the caller edits EVERYTHING in the value it got (it is the caller's), then the byte-identical
+	// text is parsed again - and once more through UnmarshalControl: both must be what the text denotes
+	ops["dalias"] = func(a []string) string {
+		d, err := dependency.Parse(arg(a, 0))
+		if err != nil || d == nil {
+			return showDres(d, err)
+		}
+		for i := range d.Relations {
+			for _, p := range d.Relations[i].Possibilities {
+				p.Name = "edited"
+				p.Substvar = !p.Substvar
+				if p.Arch != nil {
+					p.Arch.CPU = "edited"
+				}
+				if p.Architectures != nil {
+					p.Architectures.Not = !p.Architectures.Not
+					for k := range p.Architectures.Architectures {
+						p.Architectures.Architectures[k].OS = "edited"
+					}
+					p.Architectures.Architectures = append(p.Architectures.Architectures, dependency.Arch{CPU: "edited"})
+				}
+				if p.Version != nil {
+					p.Version.Number = "0~edited"
+					p.Version.Operator = "<<"
+				}
+				for k := range p.StageSets {
+					for j := range p.StageSets[k].Stages {
+						p.StageSets[k].Stages[j].Name = "edited"
+						p.StageSets[k].Stages[j].Not = !p.StageSets[k].Stages[j].Not
+					}
+				}
+			}
+			if len(d.Relations[i].Possibilities) > 0 {
+				d.Relations[i].Possibilities = d.Relations[i].Possibilities[:len(d.Relations[i].Possibilities)-1]
+			}
+		}
+		second := showDres(dependency.Parse(arg(a, 0)))
+		var u dependency.Dependency
+		if err := u.UnmarshalControl(arg(a, 0)); err != nil {
+			return second + " | err"
+		}
+		return second + " | ok " + showDep(&u)
+	}
 	ops["dstring"] = func(a []string) string {
 		d, err := dependency.Parse(arg(a, 0))
 		if err != nil {
@@ -130,6 +173,56 @@ func init() {
 			return "err"
 		}
 		return showArch(x)
+	}
+	// aalias name other: what ParseArch (and the dependency parser) hand out belongs to the caller.  The caller edits the
+	// value it got - sets a field, re-uses it as the receiver of another name - and the SAME name parsed afterwards, alone,
+	// in an architecture list and as a qualifier, must still mean what it meant.
+	ops["aalias"] = func(a []string) string {
+		name, other := arg(a, 0), arg(a, 1)
+		x, err := dependency.ParseArch(name)
+		if err != nil {
+			return "err"
+		}
+		d1, err := dependency.Parse("foo:" + name + " [" + name + " !" + name + "x] | bar [" + name + "]")
+		if err == nil && d1 != nil {
+			for _, r := range d1.Relations {
+				for _, p := range r.Possibilities {
+					if p.Arch != nil {
+						p.Arch.ABI, p.Arch.OS, p.Arch.CPU = "edited", "edited", "edited"
+					}
+					if p.Architectures != nil {
+						for k := range p.Architectures.Architectures {
+							p.Architectures.Architectures[k].CPU = "edited"
+						}
+					}
+				}
+			}
+		}
+		x.ABI = "edited"
+		x.UnmarshalControl(other)
+		xs, err := dependency.ParseArchitectures(name + " " + other)
+		if err == nil {
+			for k := range xs {
+				xs[k].OS = "edited"
+			}
+		}
+		y, err := dependency.ParseArch(name)
+		if err != nil {
+			return "err-second"
+		}
+		ys, err := dependency.ParseArchitectures(name)
+		if err != nil || len(ys) != 1 {
+			return "err-list"
+		}
+		d2, err := dependency.Parse("foo:" + name + " [" + name + "]")
+		if err != nil || d2 == nil || len(d2.Relations) != 1 || len(d2.Relations[0].Possibilities) != 1 {
+			return "err-dep"
+		}
+		p := d2.Relations[0].Possibilities[0]
+		if p.Arch == nil || p.Architectures == nil || len(p.Architectures.Architectures) != 1 {
+			return "err-dep-shape"
+		}
+		return showArch(*y) + " | " + showArch(ys[0]) + " | " + showArch(*p.Arch) + " | " + showArch(p.Architectures.Architectures[0])
 	}
 	ops["aparse"] = func(a []string) string {
 		x, err := dependency.ParseArch(arg(a, 0))
